@@ -240,7 +240,7 @@ func TestCheck(t *testing.T) {
 	cov["distinct_nontrivial"] = int(nontriv)
 	cov["rule"] = "input-exhaustive per section; a state is one distinct input of one section, a transition one call into the packages under test; " + strings.Join(rules, " | ")
 	cov["sections"] = per
-	prio := map[string]int{"sign-verify": 1, "fixedn-values": 2, "bigint-int": 3, "base58-bytes": 4, "script-multisig": 5, "nep2": 6}
+	prio := map[string]int{"sign-verify": 1, "fixedn-values": 2, "bigint-int": 3, "base58-bytes": 4, "script-multisig": 5, "nep2": 6, "nep2-unicode": 7}
 	rk := func(i int) string {
 		sec := c.samples[i].(map[string]string)["section"]
 		p := prio[sec]
